@@ -217,7 +217,14 @@ impl<'r> G<'r> {
 
     fn trace(&mut self) -> Stmt {
         self.trace_no += 1;
-        let mut items = vec![PItem::E(Expr::Str(format!("T{}", self.trace_no)))];
+        // (now and then a character outside the basic plane, or two bytes wide: the
+        // statements to its right on a colon-joined line keep their columns)
+        let tail = if self.rng.chance(1, 12) {
+            *self.rng.pick(&["\u{1F600}", "\u{e9}", "\u{10348}\u{10348}"])
+        } else {
+            ""
+        };
+        let mut items = vec![PItem::E(Expr::Str(format!("T{}{}", self.trace_no, tail)))];
         let n = self.rng.below(3);
         for _ in 0..n {
             items.push(PItem::Semi);
@@ -1019,7 +1026,12 @@ impl<'r> Sh<'r> {
     }
     fn trace(&mut self, vars: &[&str]) -> Stmt {
         self.t += 1;
-        let mut items = vec![PItem::E(Expr::Str(format!("T{}", self.t)))];
+        let tail = if self.rng.chance(1, 12) {
+            *self.rng.pick(&["\u{1F600}", "\u{e9}", "\u{10348}\u{10348}"])
+        } else {
+            ""
+        };
+        let mut items = vec![PItem::E(Expr::Str(format!("T{}{}", self.t, tail)))];
         for v in vars {
             items.push(PItem::Semi);
             items.push(PItem::E(Expr::Var(v.to_string())));
@@ -1577,9 +1589,84 @@ impl<'r> Sh<'r> {
     }
 }
 
+impl<'r> Sh<'r> {
+    /// Calls nested far deeper than any other scenario goes (100-220 levels): the report of
+    /// the error raised at the bottom lists every one of them; trapped, the program goes on
+    /// and a later error in the main module lists none.
+    fn deep_recursion_shape(&mut self) -> Scenario {
+        let depth = self.rng.range(100, 220) as i32;
+        let mode = self.rng.below(3); // 0 none, 1 ON ERROR RESUME NEXT, 2 handler RESUME NEXT
+        let mut main = vec![self.trace(&[])];
+        match mode {
+            1 => main.push(self.st(StmtKind::OnErrorResumeNext)),
+            2 => main.push(self.st(StmtKind::OnErrorGoto("H1".into()))),
+            _ => {}
+        }
+        main.push(self.st(StmtKind::CallSub {
+            name: "RD".into(),
+            args: vec![Expr::Int(depth)],
+        }));
+        main.push(self.trace(&["G3%"]));
+        if mode != 0 {
+            // after everything has returned: an error that ends the program
+            main.push(self.st(StmtKind::OnErrorGoto0));
+            let f = self.fail();
+            main.push(f);
+        }
+        main.push(self.st(StmtKind::End));
+        if mode == 2 {
+            self.handler(&mut main, ResumeKind::Next, None);
+        }
+        let rec = self.st(StmtKind::CallSub {
+            name: "RD".into(),
+            args: vec![Expr::Paren(Box::new(Expr::Sub(
+                Box::new(Expr::Var("P1%".into())),
+                Box::new(Expr::Int(1)),
+            )))],
+        });
+        let f = self.fail();
+        let t = self.trace(&["P1%"]);
+        let body = vec![
+            self.st(StmtKind::IfLine {
+                cond: Expr::Cmp(
+                    CmpOp::Gt,
+                    Box::new(Expr::Var("P1%".into())),
+                    Box::new(Expr::Int(0)),
+                ),
+                then_s: Box::new(rec),
+                else_s: Some(Box::new(f)),
+            }),
+            self.st(StmtKind::IfLine {
+                cond: Expr::Cmp(
+                    CmpOp::Lt,
+                    Box::new(Expr::Var("P1%".into())),
+                    Box::new(Expr::Int(2)),
+                ),
+                then_s: Box::new(t),
+                else_s: None,
+            }),
+        ];
+        Scenario {
+            main,
+            procs: vec![Proc {
+                name: "RD".into(),
+                is_function: false,
+                params: vec!["P1%".into()],
+                body,
+                is_static: false,
+            }],
+            stdin: vec![],
+        }
+    }
+}
+
 pub fn gen_resume_shapes(rng: &mut Rng) -> Scenario {
-    let shape = rng.below(6);
+    let shape = rng.below(13);
     let mut g = Sh { rng, next: 0, t: 0 };
+    if shape == 12 {
+        return g.deep_recursion_shape();
+    }
+    let shape = shape % 6;
     if shape >= 4 {
         return g.failing_header_shape();
     }
